@@ -246,7 +246,7 @@ def gen_svg_set(rng, n_glyphs=None, gradients=True, groups=True, special_colors=
                 if base["kind"] in ("ellipse",) and name in ("scale", "shear", "scale_y_only", "scale_x_only"):
                     t = (1, 0, 0, 1, 3, 2)
                 cmds = transform_cmds(base["cmds"], t)
-                shape = {"kind": base["kind"], "cmds": cmds, "reused": name}
+                shape = {"kind": base["kind"], "cmds": cmds, "reused": name, "grad_of": base}
             else:
                 r = vbh * (0.12 + 0.2 * rng.random())
                 cx = ox + vbw_ * (0.2 + 0.6 * rng.random())
@@ -260,10 +260,20 @@ def gen_svg_set(rng, n_glyphs=None, gradients=True, groups=True, special_colors=
             nonlocal gcount
             d = cmds_to_d(shape["cmds"])
             attrs = ""
-            if not solid_only and gradients and rng.random() < 0.4:
+            src_grad = shape.get("grad_of", {}).get("grad_xml") if not solid_only and gradients else None
+            if src_grad and rng.random() < 0.6:
+                # the SAME gradient definition on a copy of the shape (so per-document gradient sharing is exercised)
                 gid = f"g{gi}_{gcount}"
                 gcount += 1
-                defs.append(gen_gradient(rng, gid, cmds_bbox(shape["cmds"])))
+                import re as _re
+                defs.append(_re.sub(r'id="[^"]+"', f'id="{gid}"', src_grad, count=1))
+                fill = f"url(#{gid})"
+            elif not solid_only and gradients and rng.random() < 0.4:
+                gid = f"g{gi}_{gcount}"
+                gcount += 1
+                xml = gen_gradient(rng, gid, cmds_bbox(shape["cmds"]))
+                shape["grad_xml"] = xml
+                defs.append(xml)
                 fill = f"url(#{gid})"
             else:
                 fill = gen_color(rng, allow_special=special_colors and not solid_only, palette_indices=palette_indices)
